@@ -1,6 +1,7 @@
 package core
 
 import (
+	"math"
 	"strconv"
 	"strings"
 	"unicode"
@@ -104,7 +105,9 @@ func (x *X) FullSrc() string {
 	return p.Print(x)
 }
 
-func (p *Printer) emit(text string, anchor *X) { p.toks = append(p.toks, ptok{text: text, anchor: anchor}) }
+func (p *Printer) emit(text string, anchor *X) {
+	p.toks = append(p.toks, ptok{text: text, anchor: anchor})
+}
 
 // nodePrec: the loosest binding power at which x can stand without parentheses.
 func nodePrec(x *X) int {
@@ -205,7 +208,7 @@ func (p *Printer) leftOperand(x *X, prec int, rightAssoc bool) {
 func (p *Printer) bare(x *X) {
 	switch x.K {
 	case "lit":
-		p.emit(LitSrc(x), x)
+		p.emit(p.litSrc(x), x)
 	case "var":
 		p.emit(x.Name, x)
 	case "opq":
@@ -330,6 +333,76 @@ func (p *Printer) bare(x *X) {
 	default:
 		panic("print: unknown node kind " + x.K)
 	}
+}
+
+// litSrc spells a literal; a printer with a Choose function varies the spelling among the documented ones
+// (leading zeros and digit separators of decimal integers, exponent and leading-dot floats, single quotes and
+// \u escapes of strings). The value is the same whatever the spelling.
+func (p *Printer) litSrc(x *X) string {
+	plain := LitSrc(x)
+	if p.Choose == nil || p.choose(4, "litspell") != 0 {
+		return plain
+	}
+	switch {
+	case x.Ty.K == KInt || x.S == "int" && x.Ty.IsNum():
+		if x.I < 0 {
+			return plain
+		}
+		switch p.choose(3, "intspell") {
+		case 0:
+			return "0" + plain
+		case 1:
+			return "00" + plain
+		default:
+			if len(plain) > 3 {
+				return plain[:len(plain)-3] + "_" + plain[len(plain)-3:]
+			}
+			return plain
+		}
+	case x.Ty.K == KF64 && x.S != "int":
+		if x.F < 0 || math.IsInf(x.F, 0) || math.IsNaN(x.F) {
+			return plain
+		}
+		switch p.choose(3, "floatspell") {
+		case 0:
+			return strconv.FormatFloat(x.F, 'e', -1, 64)
+		case 1:
+			if strings.HasPrefix(plain, "0.") {
+				return plain[1:]
+			}
+		}
+		return plain
+	case x.Ty.K == KStr:
+		var b strings.Builder
+		single := p.choose(2, "quote") == 0
+		q := byte('"')
+		if single {
+			q = '\''
+		}
+		b.WriteByte(q)
+		for _, r := range x.S {
+			switch {
+			case r == rune(q) || r == '\\':
+				b.WriteByte('\\')
+				b.WriteRune(r)
+			case r == '\n':
+				b.WriteString(`\n`)
+			case r == '\r':
+				b.WriteString(`\r`)
+			case r == '\t':
+				b.WriteString(`\t`)
+			case r < 0x20 || r == 0x7f:
+				b.WriteString(`\x` + strconv.FormatInt(int64(0x100+r), 16)[1:])
+			case r >= 0x80 && r <= 0xffff && p.choose(2, "uesc") == 0:
+				b.WriteString(`\u` + strconv.FormatInt(int64(0x10000+r), 16)[1:])
+			default:
+				b.WriteRune(r)
+			}
+		}
+		b.WriteByte(q)
+		return b.String()
+	}
+	return plain
 }
 
 // LitSrc spells a literal.
